@@ -146,7 +146,7 @@ func gameText(c *Ctx, g *genGame) []byte {
 
 func genC12cmd(c *Ctx) {
 	r := c.R
-	for k := c.Scale(400, 24000); k > 0; k-- {
+	for k := c.Scale(400, 12000); k > 0; k-- {
 		var g *genGame
 		switch x := r.Intn(10); {
 		case x < 6:
